@@ -109,7 +109,13 @@ def validate(ck, execs, label):
 def run_for(ck):
     quick = ck.tier == "quick"
     exe = build()
-    k = extract(exe)
+    try:
+        k = extract(exe)
+    except vlib.Infra as ex:
+        # the code no longer performs the accesses this model is cut along (restructured, not necessarily wrong): the model cannot
+        # be instantiated, which is reported as drift - the system-level scenarios still decide the property
+        ck.drifted(f"logger removal protocol: constant extraction failed: {ex}")
+        return
     ck.extra["removal_protocol_memory_orders_from_code"] = k
     for recs in ([2] if quick else [2, 3]):
         label = f"remove-{recs}"
